@@ -33,6 +33,8 @@ type Term struct {
 }
 
 type TermTable struct {
+	// SelectHook expands reads of "mixed" heaps (see effects.go): select(mix(H, F), q) = ite(keep(q), H[q], F[q])
+	SelectHook func(a, i *Term) *Term
 	tab   map[string]*Term
 	n     int
 	fresh map[string]int
@@ -453,6 +455,19 @@ func splitArraySort(s string) (string, string) {
 	panic("bad array sort: " + s)
 }
 
+func containsMix(a *Term) bool {
+	for a.Kind == KApp && a.Op == "store" {
+		a = a.Args[0]
+	}
+	if a.Kind == KApp && strings.HasPrefix(a.Op, "mix$") {
+		return true
+	}
+	if a.Kind == KApp && a.Op == "ite" {
+		return containsMix(a.Args[1]) || containsMix(a.Args[2])
+	}
+	return false
+}
+
 func (tt *TermTable) Select(a, i *Term) *Term {
 	_, es := splitArraySort(a.Sort)
 	for a.Kind == KApp && a.Op == "store" {
@@ -464,6 +479,10 @@ func (tt *TermTable) Select(a, i *Term) *Term {
 			a = a.Args[0]
 			continue
 		}
+		if tt.SelectHook != nil && containsMix(a.Args[0]) {
+			// read through the store so that the mixed heap underneath gets expanded
+			return tt.Ite(tt.Eq(i, j), a.Args[2], tt.Select(a.Args[0], i))
+		}
 		break
 	}
 	if a.Kind == KApp && a.Op == "ite" && a.Args[1].Kind == KApp && a.Args[1].Op == "store" && a.Args[1].Args[0] == a.Args[2] && a.Args[1].Args[1] == i {
@@ -473,9 +492,16 @@ func (tt *TermTable) Select(a, i *Term) *Term {
 	if a.Kind == KApp && a.Op == "const-array" {
 		return a.Args[0]
 	}
+	if a.Kind == KApp && strings.HasPrefix(a.Op, "mix$") && tt.SelectHook != nil {
+		if r := tt.SelectHook(a, i); r != nil {
+			return r
+		}
+	}
 	if a.Kind == KApp && a.Op == "ite" {
 		c, xa, ya := a.Args[0], a.Args[1], a.Args[2]
-		isStore := func(t *Term) bool { return t.Kind == KApp && t.Op == "store" }
+		isStore := func(t *Term) bool {
+			return t.Kind == KApp && (t.Op == "store" || strings.HasPrefix(t.Op, "mix$") || t.Op == "ite")
+		}
 		if isStore(xa) || isStore(ya) || (i.Kind == KApp && i.Op == "ite" && i.Args[0] == c) {
 			ix, iy := i, i
 			if i.Kind == KApp && i.Op == "ite" && i.Args[0] == c {
@@ -856,6 +882,9 @@ func (t *Term) print(sb *strings.Builder, names map[int]string) {
 }
 
 func isUFName(op string) bool {
+	if strings.HasPrefix(op, "mix$") {
+		return true
+	}
 	// UF names may contain characters that need quoting; builtin ops never start with a letter followed by '$'
 	return strings.ContainsAny(op, "$!@#") && !strings.HasPrefix(op, "(_")
 }
